@@ -234,9 +234,17 @@ pub fn on_commit(_o: &mut Observer, node: usize, b: &Block) {
 pub fn on_end(o: &mut Observer, end_us: u64) {
     let profile = o.ext.profile.clone();
     let check_sealed = profile == "C11" || profile == "C13";
-    let check_e2e = profile == "C13";
+    let mut check_e2e = profile == "C13";
     if !check_sealed && !check_e2e {
         return;
+    }
+    // C13 is stated for periods without view changes: a run in which any timeout occurred is
+    // outside its premise (blocks may be orphaned) and is not judged end to end.
+    if check_e2e && (o.probes.get("C10.timeout-on-wire").cloned().unwrap_or(0) > 0 || o.probes.get("C19.tc-broadcast").cloned().unwrap_or(0) > 0) {
+        check_e2e = false;
+        o.probe("C13.premise-broken-by-view-change");
+    } else if check_e2e {
+        o.probe("C13.judged-end-to-end");
     }
     let mut viol: Vec<(&str, &str, Option<usize>, String)> = Vec::new();
     STATE.with(|s| {
